@@ -20,6 +20,7 @@ package ollamarunner
 // (assumption A-hash in props/C07.json); written out in every clause below.
 
 //@ spec func kvlen(ver int, seq int) int      -- number of cached positions of sequence seq in cache state ver
+//@ axiom forall v int, s int :: kvlen(v, s) >= 0
 
 // ---- kvcache.Cache (trusted; from the interface documentation in kvcache/cache.go) ----
 
@@ -135,3 +136,70 @@ package ollamarunner
 //@   loop 1 invariant forall k int :: 0 <= k && k < numKeep ==> slot.Inputs[k] == old(slot.Inputs[k])
 //@   loop 1 invariant forall k int :: numKeep <= k && k < i - discard ==> slot.Inputs[k] == old(slot.Inputs[k + discard])
 //@   loop 1 invariant forall k int :: i <= k && k < inputLen ==> slot.Inputs[k] == old(slot.Inputs[k])
+
+// ---- findBestCacheSlot ----
+// Same selection contract as findLongestCacheSlot (slot of c.slots, not in use, returned
+// length = longest common prefix of the slot's inputs - after a possible fork - and the
+// prompt). Fork: the evicted slot gets Inputs == src.Inputs[:n] in a fresh array and the cache
+// is asked CopyPrefix(src.Id, dst.Id, n) with the same n. Nothing else changes, and I(c) is kept.
+//
+// `opt safe+ nil`: oldestSlot stays nil when no slot that is not in use compares older than
+// time.Now(); `oldestSlot.InUse` then dereferences nil (see props/C07.json).
+
+//@ func (*InputCache).findBestCacheSlot
+//@   opt safe+ nil
+//@   requires len(prompt) < (1 << 31) && len(c.slots) >= 1
+//@   requires forall k int :: 0 <= k && k < len(c.slots) ==> c.slots[k].Id == k
+//@   requires c.cache != nil ==> forall k int :: 0 <= k && k < len(c.slots) ==> kvlen(c.cache.ghost_ver, c.slots[k].Id) == len(c.slots[k].Inputs)
+//@   modifies c.slots[all], c.cache.ghost_ver
+//@
+//@   ensures result.2 == nil ==> exists j int :: 0 <= j && j < len(c.slots) && result.0 == &c.slots[j]
+//@   ensures result.2 == nil ==> !result.0.InUse
+//@   ensures result.2 == nil ==> 0 <= result.1 && result.1 <= len(result.0.Inputs) && result.1 <= len(prompt)
+//@   ensures result.2 == nil ==> forall k int :: 0 <= k && k < result.1 ==> result.0.Inputs[k].Token == prompt[k].Token && result.0.Inputs[k].MultimodalHash == prompt[k].MultimodalHash
+//@   ensures result.2 == nil ==> result.1 == len(result.0.Inputs) || result.1 == len(prompt) || result.0.Inputs[result.1].Token != prompt[result.1].Token || result.0.Inputs[result.1].MultimodalHash != prompt[result.1].MultimodalHash
+//@   ensures result.2 != nil ==> result.0 == nil
+//@   ensures forall k int :: 0 <= k && k < len(c.slots) ==> c.slots[k].Id == old(c.slots[k].Id) && c.slots[k].InUse == old(c.slots[k].InUse) && c.slots[k].lastUsed == old(c.slots[k].lastUsed)
+//@   ensures forall k int :: 0 <= k && k < len(c.slots) && (result.2 != nil || result.0 != &c.slots[k]) ==> c.slots[k].Inputs == old(c.slots[k].Inputs)
+//@   ensures result.2 == nil ==> result.0.Inputs == old(result.0.Inputs) || (len(result.0.Inputs) == result.1 && fresh(&result.0.Inputs[0]))
+//@   ensures c.cache != nil ==> forall k int :: 0 <= k && k < len(c.slots) ==> kvlen(c.cache.ghost_ver, c.slots[k].Id) == len(c.slots[k].Inputs)
+//@   ensures result.2 != nil ==> c.cache.ghost_ver == old(c.cache.ghost_ver)
+//@
+//@   assert-at call CopyPrefix #1 : arg1 == longestSlot.Id && arg2 == oldestSlot.Id && arg3 == longest && arg1 != arg2
+//@   assert-at call CopyPrefix #1 : len(oldestSlot.Inputs) == longest && forall k int :: 0 <= k && k < longest ==> oldestSlot.Inputs[k] == longestSlot.Inputs[k]
+//@
+//@   loop 1 invariant -1 <= longest && (rangeindex >= 0 ==> longestSlot != nil) && (longestSlot == nil ==> longest == -1)
+//@   loop 1 invariant longestSlot != nil ==> exists j int :: 0 <= j && j <= rangeindex && longestSlot == &c.slots[j]
+//@   loop 1 invariant longestSlot != nil ==> 0 <= longest && longest <= len(longestSlot.Inputs) && longest <= len(prompt)
+//@   loop 1 invariant longestSlot != nil ==> forall k int :: 0 <= k && k < longest ==> longestSlot.Inputs[k].Token == prompt[k].Token && longestSlot.Inputs[k].MultimodalHash == prompt[k].MultimodalHash
+//@   loop 1 invariant longestSlot != nil ==> longest == len(longestSlot.Inputs) || longest == len(prompt) || longestSlot.Inputs[longest].Token != prompt[longest].Token || longestSlot.Inputs[longest].MultimodalHash != prompt[longest].MultimodalHash
+//@   loop 1 invariant longest <= 0 ==> forall k int :: 0 <= k && k <= rangeindex ==> len(c.slots[k].Inputs) == 0 || len(prompt) == 0 || c.slots[k].Inputs[0].Token != prompt[0].Token || c.slots[k].Inputs[0].MultimodalHash != prompt[0].MultimodalHash
+//@   loop 1 invariant oldestSlot != nil ==> exists j int :: 0 <= j && j <= rangeindex && oldestSlot == &c.slots[j]
+//@   loop 1 invariant oldestSlot != nil ==> !oldestSlot.InUse
+
+// ---- LoadCacheSlot ----
+// The slot handed out was not in use and is now; no other slot changes owner. What stays
+// recorded in the slot is a prefix of the prompt (input-wise equal), what is returned is
+// exactly the rest of the prompt and is never empty; the cache was trimmed to the same
+// length (Remove(id, numPast, "to the end")), so I(c) holds again. No other slot's inputs change.
+
+//@ func (*InputCache).LoadCacheSlot
+//@   requires 1 <= len(prompt) && len(prompt) < (1 << 31) && len(c.slots) >= 1
+//@   requires &c.slots[0] != nil      -- Go type invariant of a non-empty slice (its array exists); the engine assumes it only for values loaded by code, and this body never loads c.slots itself
+//@   requires forall k int :: 0 <= k && k < len(c.slots) ==> c.slots[k].Id == k
+//@   requires c.cache != nil ==> forall k int :: 0 <= k && k < len(c.slots) ==> kvlen(c.cache.ghost_ver, c.slots[k].Id) == len(c.slots[k].Inputs)
+//@   modifies c.slots[all], c.cache.ghost_ver
+//@
+//@   ensures result.2 == nil ==> exists j int :: 0 <= j && j < len(c.slots) && result.0 == &c.slots[j]
+//@   ensures result.2 == nil ==> !old(result.0.InUse) && result.0.InUse
+//@   ensures forall k int :: 0 <= k && k < len(c.slots) && (result.2 != nil || result.0 != &c.slots[k]) ==> c.slots[k].InUse == old(c.slots[k].InUse) && c.slots[k].Inputs == old(c.slots[k].Inputs)
+//@   ensures forall k int :: 0 <= k && k < len(c.slots) ==> c.slots[k].Id == old(c.slots[k].Id)
+//@   ensures result.2 == nil ==> len(result.1) >= 1 && len(result.0.Inputs) + len(result.1) == len(prompt)
+//@   ensures result.2 == nil ==> result.1 == prompt[len(result.0.Inputs):]
+//@   ensures result.2 == nil ==> forall k int :: 0 <= k && k < len(result.0.Inputs) ==> result.0.Inputs[k].Token == prompt[k].Token && result.0.Inputs[k].MultimodalHash == prompt[k].MultimodalHash
+//@   ensures c.cache != nil ==> forall k int :: 0 <= k && k < len(c.slots) ==> kvlen(c.cache.ghost_ver, c.slots[k].Id) == len(c.slots[k].Inputs)
+//@   ensures result.2 != nil ==> result.0 == nil && c.cache.ghost_ver == old(c.cache.ghost_ver)
+//@
+//@   assert-at call Remove #1 : arg1 == slot.Id && arg2 == numPast && arg3 == 2147483647
+//@   assert-at call Remove #1 : 0 <= numPast && numPast < len(prompt) && numPast <= len(slot.Inputs)
+//@   assert-at call Remove #2 : arg1 == slot.Id && arg2 == 0 && arg3 == 2147483647
